@@ -46,6 +46,11 @@ fn gen(t: Tier, _seed: u64, emit: &mut dyn FnMut(Case)) {
             emit(Case::OpsLong { n, s1, s2 });
         }
     }
+    for n in huge_lengths(4) {
+        for (s1, s2) in [(0usize, 0usize), (1, 0), (0, 1)] {
+            emit(Case::OpsLong { n, s1, s2 });
+        }
+    }
     emit(Case::ContainsSmall { n: 1, first: 0 });
     for first in 0..16 {
         emit(Case::ContainsSmall { n: 2, first });
@@ -255,14 +260,17 @@ fn run(c: &Case, out: &mut Out) {
             ops_one(&ba, &bb, *s1, *s2, out);
             contains_one(&ba, &bb, *s1, *s2, out);
             let (mut a, mut b) = (ba.clone(), bb.clone());
-            let mut pos: Vec<usize> = vec![0, *n - 1];
+            let mut pos: Vec<usize> = vec![0, *n - 1, *n - 2, *n / 2];
             let mut w = 16;
-            while w < *n {
+            while w < *n && pos.len() < 16 {
                 pos.extend([w - 1, w]);
-                w += 16 * 3;
+                w = if *n > 400 { w * 4 } else { w + 16 * 3 };
             }
+            pos.retain(|p| *p < *n);
+            pos.sort();
+            pos.dedup();
             for p in pos {
-                for (i, &x) in al.iter().enumerate() {
+                for (i, &x) in al.iter().enumerate().filter(|(i, _)| *n <= 400 || i % 5 == p % 5) {
                     let y = al[(i * 7 + p) % 16];
                     a[p] = x;
                     b[p] = y;
